@@ -15,6 +15,7 @@ from typing import Any
 from sim import wire as W
 from sim.runworld import make_xknx
 from sim.world import Run
+from sim import e2e as E
 
 ID = "C33"
 LEVEL = "exploration"
@@ -27,12 +28,21 @@ RULE = ("one run = one seeded mix of incoming/outgoing/internal telegrams with p
 REAL = ["xknx.XKNX.start/join/stop", "xknx.core.TelegramQueue", "xknx.cemi.CEMIHandler", "xknx.devices.Devices/Switch",
         "xknx.core.TaskRegistry", "xknx.core.StateUpdater (idle)"]
 STUB = ["KNXIPInterface (StubInterface)", "loop (SimLoop)"]
-ASSUMPTIONS = ["'queued' order = order of put_nowait calls on xknx.telegrams",
+E2E_NOTE = ("whole-stack mode (1 run in 12): real XKNX.start() over a real UDP/TCP tunnel against the gateway + bus model of "
+            "sim/e2e.py with datagram loss / duplication / delay, gateway crashes and disconnects; this module's clauses "
+            "judged across the seams")
+
+REAL = REAL + ["whole-stack mode: " + ", ".join(E.REAL)]
+STUB = STUB + ["whole-stack mode: " + ", ".join(E.STUB)]
+ASSUMPTIONS = [E2E_NOTE, "'queued' order = order of put_nowait calls on xknx.telegrams",
                "liveness bound = sum over outgoing telegrams of (send latency + 3 s confirmation timeout + 1/rate) + 5 s"]
 GA_BASE = W.ga(4, 0, 0)
 
 
 def gen(seed: int, tier: str) -> dict[str, Any]:
+    if seed % 12 == 7:
+        # one run in 12: the same clauses across the seams, on the whole stack (sim/e2e.py)
+        return E.gen(seed, tier, "C33")
     rng = random.Random(seed)
     n = rng.choice([1, 3, 6, 12, 25])
     rate = rng.choice([0, 0, 1, 5, 20, 100])
@@ -75,6 +85,10 @@ def gen(seed: int, tier: str) -> dict[str, Any]:
 
 
 def run(plan: dict[str, Any]) -> dict[str, Any]:
+    if plan["config"].get("mode") == "e2e":
+        R, obs = E.run(plan)
+        E.judge_c33(R, obs)
+        return E.finish(R, obs)
     from xknx.devices import Switch
     from xknx.dpt import DPTArray
     from xknx.telegram import GroupAddress, Telegram, TelegramDirection
